@@ -134,13 +134,23 @@ func (c05) Run(c *Case, st *Stats) []Violation {
 // (fresh instance, canonical schedule) and combines the action lists by the combinator's rule.
 func combineMembers(c *Case, st *Stats) ([]strategy.Action, bool) {
 	switch c.Entity {
-	case "strategy.And", "strategy.Or", "strategy.Majority", "strategy.Split", "decorator.Inverse":
+	case "strategy.And", "strategy.Or", "strategy.Majority", "strategy.Split", "decorator.Inverse", "registry.And", "registry.Split":
 	default:
 		return nil, false
 	}
+	entity, subs := c.Entity, c.Subs
+	if entity == "registry.And" || entity == "registry.Split" {
+		// the k-th compound of the registry function is the pair (i, j) of the members
+		if len(c.Subs) < 2 || len(c.Cfg) == 0 {
+			return nil, false
+		}
+		i, j := registryPair(len(c.Subs), c.Cfg[0])
+		subs = []SubSpec{c.Subs[i], c.Subs[j]}
+		entity = "strategy." + entity[len("registry."):]
+	}
 	var lists [][]strategy.Action
 	m := -1
-	for _, sub := range c.Subs {
+	for _, sub := range subs {
 		d := &Case{Family: "strat", Lens: c.Lens, Shape: c.Shape, DataSeed: c.DataSeed, Variant: c.Variant}
 		setSpec(d, sub)
 		r := runStrat(d, PipeOpts{SimOpts: SimOpts{Policy: simrt.PolicySpec{Name: "fifo"}}})
@@ -149,7 +159,7 @@ func combineMembers(c *Case, st *Stats) ([]strategy.Action, bool) {
 			return nil, false
 		}
 		l := append([]strategy.Action(nil), r.Outs[0]...)
-		if c.Entity == "strategy.And" || c.Entity == "strategy.Or" || c.Entity == "strategy.Majority" {
+		if entity == "strategy.And" || entity == "strategy.Or" || entity == "strategy.Majority" {
 			// these three vote on positions, not on signals (strategy.ActionSources denormalises): a
 			// member counts as Buy from its Buy until its next Sell, and the other way round
 			last := strategy.Hold
@@ -183,7 +193,7 @@ func combineMembers(c *Case, st *Stats) ([]strategy.Action, bool) {
 		}
 		k := len(lists)
 		out[i] = strategy.Hold
-		switch c.Entity {
+		switch entity {
 		case "strategy.And": // all members agree
 			if sell == k {
 				out[i] = strategy.Sell
